@@ -1604,7 +1604,7 @@ class Node:
             parent_idx = parent_id_map[parent_id]
 
             node_data = node._data
-            data_id = calc_id(node_data)
+            data_id = node._data_id
 
             # If node is a 2nd occurrence of a clone, only store the index of the
             # first occurrence and do not call the mapper
